@@ -1052,6 +1052,167 @@ pub fn run_c08(ctx: &mut Ctx) {
     );
     ctx.workers = saved;
 }
+/// C08 on positions with very large capture trees: many queens (some rooks) a side, every man en
+/// prise to several others (random swarms, and balanced lattices where every man is also defended). A single quiescence search on such a position runs for seconds, so the
+/// answer is on time only if the clock is consulted inside it. Construction, not rejection: a man
+/// whose placement would leave both kings attacked is skipped; the side in check is to move.
+#[derive(Debug, Clone)]
+pub struct SwarmCase {
+    pub wk: u8,
+    pub bk: u8,
+    pub men: Vec<(bool, bool, u8)>,
+    pub white_to_move: bool,
+    pub clock: u16,
+    pub form: u8,
+    /// Some((parity, lowest band rank 1..=3, colours swapped, noise per lattice square)): two bands of
+    /// two ranks each, men on alternating squares, every man defended and attacked - exchanges stay
+    /// balanced, so the capture search has no early cut-offs. `men` is ignored then.
+    pub lattice: Option<(u8, u8, bool, Vec<u8>)>,
+}
+fn build_lattice(c: &SwarmCase, par: u8, base: u8, flip: bool, noise: &[u8]) -> Option<Pos> {
+    let mut p = Pos::empty();
+    let mut i = 0;
+    for band in 0..4u8 {
+        let r = base + band;
+        let white = (band < 2) != flip;
+        for f in 0..8u8 {
+            if (f + r + par) % 2 != 0 {
+                continue;
+            }
+            let n = noise.get(i).copied().unwrap_or(255);
+            i += 1;
+            if n < 8 {
+                continue; // about 3 % of the lattice squares stay empty
+            }
+            p.sq[(r * 8 + f) as usize] = Some((if white { Color::White } else { Color::Black }, if n < 21 { Kind::Rook } else { Kind::Queen }));
+        }
+    }
+    // kings on the back ranks behind their own band
+    let (wr, br) = if flip { (7, 0) } else { (0, 7) };
+    p.sq[(wr * 8 + c.wk % 8) as usize] = Some((Color::White, Kind::King));
+    p.sq[(br * 8 + c.bk % 8) as usize] = Some((Color::Black, Kind::King));
+    p.stm = if c.white_to_move { Color::White } else { Color::Black };
+    if p.in_check(Color::White) {
+        p.stm = Color::White;
+    }
+    if p.in_check(Color::Black) {
+        p.stm = Color::Black;
+    }
+    if p.is_legal_position() {
+        Some(p)
+    } else {
+        None
+    }
+}
+pub fn build_swarm(c: &SwarmCase) -> Option<Pos> {
+    if let Some((par, base, flip, noise)) = &c.lattice {
+        return build_lattice(c, *par, *base, *flip, noise);
+    }
+    if c.wk == c.bk {
+        return None;
+    }
+    let mut p = Pos::empty();
+    p.sq[c.wk as usize] = Some((Color::White, Kind::King));
+    p.sq[c.bk as usize] = Some((Color::Black, Kind::King));
+    let (mut nw, mut nb) = (0, 0);
+    for &(white, rook, s) in &c.men {
+        if p.sq[s as usize].is_some() {
+            continue;
+        }
+        // at most seven extra heavy men a side: material a game can reach through promotions
+        if (white && nw >= 7) || (!white && nb >= 7) {
+            continue;
+        }
+        p.sq[s as usize] = Some((if white { Color::White } else { Color::Black }, if rook { Kind::Rook } else { Kind::Queen }));
+        if p.in_check(Color::White) && p.in_check(Color::Black) {
+            p.sq[s as usize] = None;
+            continue;
+        }
+        if white {
+            nw += 1
+        } else {
+            nb += 1
+        }
+    }
+    p.stm = if c.white_to_move { Color::White } else { Color::Black };
+    if p.in_check(Color::White) {
+        p.stm = Color::White;
+    }
+    if p.in_check(Color::Black) {
+        p.stm = Color::Black;
+    }
+    if p.is_legal_position() {
+        Some(p)
+    } else {
+        None
+    }
+}
+fn swarm_strategy() -> impl Strategy<Value = SwarmCase> {
+    (
+        0u8..64,
+        0u8..64,
+        proptest::collection::vec((any::<bool>(), prop_oneof![5 => Just(false), 1 => Just(true)], 0u8..64), 10..26),
+        any::<bool>(),
+        100u16..260,
+        0u8..3,
+        prop_oneof![1 => Just(None), 3 => (0u8..2, 1u8..4, any::<bool>(), proptest::collection::vec(any::<u8>(), 16..=16)).prop_map(Some)],
+    )
+        .prop_map(|(wk, bk, men, white_to_move, clock, form, lattice)| SwarmCase { wk, bk, men, white_to_move, clock, form, lattice })
+}
+fn swarm_texts(c: &SwarmCase) -> Option<(String, Pos, String)> {
+    let p = build_swarm(c)?;
+    let go = match c.form {
+        0 => format!("go wtime {} btime {} movestogo 1", c.clock, c.clock),
+        1 => format!("go wtime {} btime {} winc 0 binc 0 movestogo 2", c.clock as u32 * 2, c.clock as u32 * 2),
+        _ => format!("go wtime {} btime {}", c.clock as u32 * 20, c.clock as u32 * 20),
+    };
+    Some((format!("position fen {}", p.fen()), p, go))
+}
+fn swarm_json(c: &SwarmCase) -> Value {
+    match swarm_texts(c) {
+        Some((t, _, go)) => json!({"position": t, "go": go, "follow": null}),
+        None => json!({"position": null}),
+    }
+}
+pub fn c08_swarm_case(c: &SwarmCase, st: &mut Stats) -> CaseResult {
+    let Some((ptext, p, go)) = swarm_texts(c) else {
+        st.label("construction_failed_skip");
+        return Ok(());
+    };
+    let white = p.stm == Color::White;
+    let plan = plan_ms(&go, white);
+    st.eval();
+    let heavy = (0..64).filter(|&s| matches!(p.sq[s], Some((_, Kind::Queen)) | Some((_, Kind::Rook)))).count();
+    st.label(&format!("heavy_men_{}", if heavy >= 12 { "12_or_more" } else if heavy >= 8 { "8_to_11" } else { "under_8" }));
+    if p.in_check(p.stm) {
+        st.label("side_to_move_in_check");
+    }
+    st.label(if c.lattice.is_some() { "balanced_lattice" } else { "random_swarm" });
+    let d = c08_once(&ptext, &p, &go, plan, None, st)?;
+    latency_rule(d, plan, false, || c08_once(&ptext, &p, &go, plan, None, &mut Stats::new())).map_err(|m| format!("{} [{} ; {}]", m, ptext, go))?;
+    if heavy >= 8 {
+        st.nontrivial(fp(&(&ptext, &go)));
+    }
+    Ok(())
+}
+pub fn run_c08_swarm(ctx: &mut Ctx) {
+    let t = ctx.tier;
+    ctx.max_shrink_iters = 10;
+    let saved = ctx.workers;
+    ctx.workers = 8;
+    run_prop(
+        ctx,
+        "capture_heavy_positions_answered_within_the_slice",
+        swarm_strategy,
+        t.pick(240, 6_000),
+        |c, st| {
+            st.sample(|| swarm_json(c));
+            c08_swarm_case(c, st)
+        },
+        swarm_json,
+    );
+    ctx.workers = saved;
+}
 pub fn replay_c08(case: &Value) -> CaseResult {
     let ptext = case.get("position").and_then(|x| x.as_str()).ok_or("no position")?;
     let go = case.get("go").and_then(|x| x.as_str()).ok_or("no go")?;
